@@ -1,11 +1,117 @@
 import ctypes
 import enum
-import errno
 from dataclasses import dataclass
 from functools import partial
-from signal import Signals
-import socket
 from typing import List
+
+# Error numbers, signals and socket constants as Darwin defines them (sys/errno.h, sys/signal.h, sys/socket.h).
+# They must not be taken from the interpreter's errno / signal / socket modules, which describe the host the tool
+# runs on and number these differently on other operating systems.
+errorcode = {
+    1: 'EPERM', 2: 'ENOENT', 3: 'ESRCH', 4: 'EINTR', 5: 'EIO', 6: 'ENXIO', 7: 'E2BIG', 8: 'ENOEXEC', 9: 'EBADF',
+    10: 'ECHILD', 11: 'EDEADLK', 12: 'ENOMEM', 13: 'EACCES', 14: 'EFAULT', 15: 'ENOTBLK', 16: 'EBUSY', 17: 'EEXIST',
+    18: 'EXDEV', 19: 'ENODEV', 20: 'ENOTDIR', 21: 'EISDIR', 22: 'EINVAL', 23: 'ENFILE', 24: 'EMFILE', 25: 'ENOTTY',
+    26: 'ETXTBSY', 27: 'EFBIG', 28: 'ENOSPC', 29: 'ESPIPE', 30: 'EROFS', 31: 'EMLINK', 32: 'EPIPE', 33: 'EDOM',
+    34: 'ERANGE', 35: 'EAGAIN', 36: 'EINPROGRESS', 37: 'EALREADY', 38: 'ENOTSOCK', 39: 'EDESTADDRREQ', 40: 'EMSGSIZE',
+    41: 'EPROTOTYPE', 42: 'ENOPROTOOPT', 43: 'EPROTONOSUPPORT', 44: 'ESOCKTNOSUPPORT', 45: 'ENOTSUP',
+    46: 'EPFNOSUPPORT', 47: 'EAFNOSUPPORT', 48: 'EADDRINUSE', 49: 'EADDRNOTAVAIL', 50: 'ENETDOWN', 51: 'ENETUNREACH',
+    52: 'ENETRESET', 53: 'ECONNABORTED', 54: 'ECONNRESET', 55: 'ENOBUFS', 56: 'EISCONN', 57: 'ENOTCONN',
+    58: 'ESHUTDOWN', 59: 'ETOOMANYREFS', 60: 'ETIMEDOUT', 61: 'ECONNREFUSED', 62: 'ELOOP', 63: 'ENAMETOOLONG',
+    64: 'EHOSTDOWN', 65: 'EHOSTUNREACH', 66: 'ENOTEMPTY', 67: 'EPROCLIM', 68: 'EUSERS', 69: 'EDQUOT', 70: 'ESTALE',
+    71: 'EREMOTE', 72: 'EBADRPC', 73: 'ERPCMISMATCH', 74: 'EPROGUNAVAIL', 75: 'EPROGMISMATCH', 76: 'EPROCUNAVAIL',
+    77: 'ENOLCK', 78: 'ENOSYS', 79: 'EFTYPE', 80: 'EAUTH', 81: 'ENEEDAUTH', 82: 'EPWROFF', 83: 'EDEVERR',
+    84: 'EOVERFLOW', 85: 'EBADEXEC', 86: 'EBADARCH', 87: 'ESHLIBVERS', 88: 'EBADMACHO', 89: 'ECANCELED', 90: 'EIDRM',
+    91: 'ENOMSG', 92: 'EILSEQ', 93: 'ENOATTR', 94: 'EBADMSG', 95: 'EMULTIHOP', 96: 'ENODATA', 97: 'ENOLINK',
+    98: 'ENOSR', 99: 'ENOSTR', 100: 'EPROTO', 101: 'ETIME', 102: 'EOPNOTSUPP', 103: 'ENOPOLICY',
+    104: 'ENOTRECOVERABLE', 105: 'EOWNERDEAD', 106: 'EQFULL',
+}
+
+
+class Signals(enum.IntEnum):
+    SIGHUP = 1
+    SIGINT = 2
+    SIGQUIT = 3
+    SIGILL = 4
+    SIGTRAP = 5
+    SIGABRT = 6
+    SIGEMT = 7
+    SIGFPE = 8
+    SIGKILL = 9
+    SIGBUS = 10
+    SIGSEGV = 11
+    SIGSYS = 12
+    SIGPIPE = 13
+    SIGALRM = 14
+    SIGTERM = 15
+    SIGURG = 16
+    SIGSTOP = 17
+    SIGTSTP = 18
+    SIGCONT = 19
+    SIGCHLD = 20
+    SIGTTIN = 21
+    SIGTTOU = 22
+    SIGIO = 23
+    SIGXCPU = 24
+    SIGXFSZ = 25
+    SIGVTALRM = 26
+    SIGPROF = 27
+    SIGWINCH = 28
+    SIGINFO = 29
+    SIGUSR1 = 30
+    SIGUSR2 = 31
+
+
+class AddressFamily(enum.IntEnum):
+    AF_UNSPEC = 0
+    AF_UNIX = 1
+    AF_INET = 2
+    AF_IMPLINK = 3
+    AF_PUP = 4
+    AF_CHAOS = 5
+    AF_NS = 6
+    AF_ISO = 7
+    AF_ECMA = 8
+    AF_DATAKIT = 9
+    AF_CCITT = 10
+    AF_SNA = 11
+    AF_DECnet = 12
+    AF_DLI = 13
+    AF_LAT = 14
+    AF_HYLINK = 15
+    AF_APPLETALK = 16
+    AF_ROUTE = 17
+    AF_LINK = 18
+    pseudo_AF_XTP = 19
+    AF_COIP = 20
+    AF_CNT = 21
+    pseudo_AF_RTIP = 22
+    AF_IPX = 23
+    AF_SIP = 24
+    pseudo_AF_PIP = 25
+    AF_NDRV = 27
+    AF_ISDN = 28
+    pseudo_AF_KEY = 29
+    AF_INET6 = 30
+    AF_NATM = 31
+    AF_SYSTEM = 32
+    AF_NETBIOS = 33
+    AF_PPP = 34
+    pseudo_AF_HDRCMPLT = 35
+    AF_RESERVED_36 = 36
+    AF_IEEE80211 = 37
+    AF_UTUN = 38
+    AF_VSOCK = 40
+
+
+class SocketKind(enum.IntEnum):
+    SOCK_STREAM = 1
+    SOCK_DGRAM = 2
+    SOCK_RAW = 3
+    SOCK_RDM = 4
+    SOCK_SEQPACKET = 5
+
+
+SOL_SOCKET = 0xffff
 
 IOC_REQUEST_PARAMS = {
     0x20000000: 'IOC_VOID',
@@ -267,7 +373,7 @@ class SocketOptionName(enum.Enum):
 
 
 def sockopt_format_level_and_option(level, option_name):
-    if level == socket.SOL_SOCKET:
+    if level == SOL_SOCKET:
         return 'SOL_SOCKET', SocketOptionName(option_name).name
     else:
         return level, option_name
@@ -364,8 +470,8 @@ def serialize_stat_flags(flags: int) -> List[StatFlags]:
 def serialize_result(end_event, success_name='', fmt=lambda x: x) -> str:
     error_code = end_event.values[0]
     res = end_event.values[1]
-    if error_code in errno.errorcode:
-        err = f'errno: {errno.errorcode[error_code]}({error_code})'
+    if error_code in errorcode:
+        err = f'errno: {errorcode[error_code]}({error_code})'
     else:
         err = f'errno: {error_code}'
     success = f'{success_name}: {fmt(res)}' if success_name else ''
@@ -1067,8 +1173,8 @@ class BscPeeloff:
 @dataclass
 class BscSocketDelegate:
     ktraces: List
-    domain: socket.AddressFamily
-    type: socket.SocketKind
+    domain: AddressFamily
+    type: SocketKind
     protocol: int
     epid: int
     result: str
@@ -3139,8 +3245,8 @@ class BscSetpriority:
 @dataclass
 class BscSocket:
     ktraces: List
-    domain: socket.AddressFamily
-    type: socket.SocketKind
+    domain: AddressFamily
+    type: SocketKind
     protocol: int
     result: str
 
@@ -3455,8 +3561,8 @@ class BscShutdown:
 @dataclass
 class BscSocketpair:
     ktraces: List
-    domain: socket.AddressFamily
-    type: socket.SocketKind
+    domain: AddressFamily
+    type: SocketKind
     protocol: int
     socket_vector: int
     result: str
@@ -5120,8 +5226,8 @@ def handle_sys_dup(parser, events):
 def handle_pipe(parser, events):
     error_code = events[-1].values[0]
     if error_code:
-        if error_code in errno.errorcode:
-            result = f'errno: {errno.errorcode[error_code]}({error_code})'
+        if error_code in errorcode:
+            result = f'errno: {errorcode[error_code]}({error_code})'
         else:
             result = f'errno: {error_code}'
     else:
@@ -5295,7 +5401,7 @@ def handle_setpriority(parser, events):
 
 def handle_socket(parser, events):
     args = events[0].values
-    return BscSocket(events, socket.AddressFamily(args[0]), socket.SocketKind(args[1]), args[2],
+    return BscSocket(events, AddressFamily(args[0]), SocketKind(args[1]), args[2],
                      serialize_result(events[-1], 'fd'))
 
 
@@ -5408,7 +5514,7 @@ def handle_shutdown(parser, events):
 
 def handle_socketpair(parser, events):
     args = events[0].values
-    return BscSocketpair(events, socket.AddressFamily(args[0]), socket.SocketKind(args[1]), args[2], args[3],
+    return BscSocketpair(events, AddressFamily(args[0]), SocketKind(args[1]), args[2], args[3],
                          serialize_result(events[-1]))
 
 
@@ -6192,7 +6298,7 @@ def handle_peeloff(parser, events):
 
 def handle_socket_delegate(parser, events):
     args = events[0].values
-    return BscSocketDelegate(events, socket.AddressFamily(args[0]), socket.SocketKind(args[1]), args[2], args[3],
+    return BscSocketDelegate(events, AddressFamily(args[0]), SocketKind(args[1]), args[2], args[3],
                              serialize_result(events[-1], 'fd'))
 
 
